@@ -43,7 +43,7 @@ func closureOf(ctx *Ctx, pkg, parent string) *ssa.Function {
 }
 
 func checkC15(ctx *Ctx, r *Report, tier string) {
-	r.Explain = "Argument provenance of every emission into the 3MF, DXF and SVG libraries, read from symbolic snapshots of the calls inside the sink loops: vertex order and winding, one mesh builder per file, one object/build item, default unit; DXF line arguments and layer; SVG origin shift, Y flip, canvas extent and the running bounding box of the drawing. Decimals, de-duplication and the readers belong to the third-party libraries and are not decided."
+	r.Explain = "Argument provenance of every emission into the 3MF, DXF and SVG libraries, read from symbolic snapshots of the calls inside the sink loops: vertex order and winding, one mesh builder per file, one object/build item, default unit; DXF line arguments and layer; SVG origin shift, Y flip, canvas extent and the running bounding box of the drawing. De-duplication and the readers belong to the third-party libraries and are not decided; of the decimals only that the module leaves the library default (X6)."
 	r.Trusted = []string{"go/types", "go/ssa", "sdfxlint symbolic evaluator", "go3mf, yofu/dxf, svgo write what they are given"}
 	r.Assume = []string{"third-party encoders are correct"}
 	check3MF(ctx, r)
